@@ -46,6 +46,7 @@ type Link struct {
 	pipes  [2]*pipe // 0: dialer->acceptor, 1: acceptor->dialer
 	ends   [2]*Conn // 0: dialer side, 1: acceptor side
 	cut    bool
+	eof    bool // the cut looks like an orderly close (EOF) to the readers instead of a reset
 	Raw    *RawConn
 }
 
@@ -94,7 +95,7 @@ func (c *Conn) Read(p []byte) (int, error) {
 		}
 		if in.closed {
 			mu.Unlock()
-			if c.link.cut {
+			if c.link.cut && !c.link.eof {
 				return 0, syscall.ECONNRESET
 			}
 			return 0, io.EOF
@@ -472,6 +473,15 @@ func (l *Link) Cut() {
 	for _, s := range sinks {
 		s(nil)
 	}
+}
+
+// CutEOF is Cut as seen through a middlebox that closes both sides in an orderly
+// way: in-flight frames are lost and both readers see EOF (not a reset).
+func (l *Link) CutEOF() {
+	mu.Lock()
+	l.eof = true
+	mu.Unlock()
+	l.Cut()
 }
 
 // IsCut reports whether the link was cut or fully closed.
